@@ -115,6 +115,15 @@ checks['C14']['text']+=' A storm of 12-18 thousand back-to-back UpdateState call
 checks['C19']['text']+=' Scripts include saturated views; an API panic is a finding; a superseded arming\'s trigger must not be readable once the superseding call has returned.'
 checks['C20']['text']+=' Proofs whose PREPAREs were signed over another view / hash than the proposal; other messages built by the same factory between a proposal\'s content and the NEW_VIEW embedding it; parsing independent of the envelope\'s history.'
 
+# ---- round 9 extensions
+checks['C17']['text']+=' Worker level also judges the future cache: a PREPARE / COMMIT of a correct member received for a height ahead (nothing higher received before it or since) must reach the protocol logic of that height\'s term when the node starts it as a committee member; a member may sit out one height and re-join.'
+checks['C08']['text']+=' A NEW_VIEW whose only forged vote is in the receiver\'s own name; syncs without the previous block\'s proof (the node\'s share seed differs from everyone else\'s, kept per node by the reference).'
+checks['C13']['text']+=' Commit-callback failures include panics of the consumer\'s callback.'
+checks['C14']['text']+=' Every other UpdateState call is made with a request-scoped context cancelled right after the call returned.'
+checks['C15']['text']+=' An election trigger that arrives while a stale sync waits in the worker\'s inbox and the worker is inside ValidateBlockProposal must still cancel that call\'s context.'
+checks['C18']['text']+=' Transport errors in the sim workload (a failed vote is never re-addressed); the same member\'s NEW_VIEW one rotation later while its earlier proposal is held.'
+checks['C07']['text']+=' Byzantine NEW_VIEWs that re-propose a block of a lower view against a higher proof among their votes.'
+
 def cmd(pid, tier):
     return "./check %s --tier %s" % (pid, tier)
 
